@@ -164,6 +164,22 @@ def run(rep, tier="quick", replay=None, evidence_dir=None):
                "(e.g. {\"type\":\"long\",\"logicalType\":\"timestamp-micros\"}) stays {\"type\":\"long\"} instead of \"long\"", pm.loc(maplen[0][0]) if maplen else pm.loc())
     rep.floor("C12.R1", "attribute-table obligations", len([o for o in rep.obligations if o["rule"] == "C12.R1"]), 20)
 
+    # ---------------------------------------------------------------- R6 text of the canonical form: Display / serde_json, never Debug
+    rep.rule("C12.R6", "the text of the canonical form is produced with Display formatting or serde_json, never with Rust's Debug formatting (whose escapes are not JSON)")
+    n6 = 0
+    dbg = []
+    for k_, b_ in sorted(prog.bodies.items()):
+        if b_.crate != "apache_avro" or not (b_.path.startswith("schema::pcf_") or b_.path.startswith("schema::parsing_canonical_form") or b_.path.startswith("schema::Schema::canonical_form")):
+            continue
+        n6 += 1
+        for bi, t in b_.calls():
+            n_ = callee_names(t["func"])[0]
+            if n_.endswith("Argument::<'_>::new_debug") or n_.endswith("::new_debug") or n_.endswith("fmt::Debug::fmt"):
+                dbg.append((b_, bi))
+    rep.ob("C12.R6", "no Debug formatting in the canonical-form functions", not dbg,
+           "a name or string is written with {:?}: quotes, backslashes and non-ASCII characters come out in Rust syntax (\\u{..}), the canonical form and every fingerprint of such a schema differ from other implementations'", dbg[0][0].loc(dbg[0][1]) if dbg else "")
+    rep.floor("C12.R6", "canonical-form functions scanned", n6, 4)
+
     # ---------------------------------------------------------------- R2
     fp = get(prog, rep, "C12.R2", "schema::Schema::fingerprint")
     if fp is not None:
